@@ -455,6 +455,7 @@ def c06(chk):
     need_stat(chk, "writedirs_single_root", 8)
     need_stat(chk, "writedirs_first_attempt_inside_window", 2)
     need_stat(chk, "writedirs_leaf_size_doubled", 2)
+    need_stat(chk, "writedirs_single_root_length_beyond_65536", 1)
     chk.validate("Trace_Archive", trace, "writedirs", scope=scope_of("C06"), parallel=8, timeout=3000)
     def is_spill(o):
         return o["ev"] == "WriteDirs" and o["res"] == "ok" and len(o.get("leaves", [])) >= 2
@@ -514,9 +515,11 @@ def mc_io(chk):
 
 def c08(chk):
     chk.mc("MC_Tree", "MC_Tree_thorough.cfg" if thorough(chk) else "MC_Tree.cfg", workers=12, timeout=3000)
-    chk.mc("MC_Codec", "MC_Codec.cfg", workers=8, timeout=3000)
+    if thorough(chk):
+        chk.mc("MC_Codec", "MC_Codec.cfg", workers=8, timeout=3000)
+    stim2, n2 = gen_stimuli(chk, "MC_Hazards", "Gen_Tokens.cfg", "tokens", timeout=900)
     stim, n = gen_stimuli(chk, "MC_Hazards", "Gen_Hazards.cfg", "hazards", timeout=600)
-    trace = drive(chk, "malformed", ["--stim", stim])
+    trace = drive(chk, "malformed", ["--stim", stim, "--stim2", stim2])
     need_stat(chk, "malformed_inputs", 1000)
     def classify(replay):
         e = replay["event"]
